@@ -86,7 +86,15 @@ func Run(c *fw.Ctx) {
 	})
 	// (4) float64-specialised forward-backward (Baum-Welch step likelihood)
 	c.Cases("hmm.bw", c.N(12000, 150000), func(cs *fw.Case) {
-		runBwCase(cs, cs.R)
+		runBwCase(cs, cs.R, false)
+	})
+	// (4b) the same on data sets of MIXED record lengths, longest first
+	c.Cases("hmm.bw.mixed", c.N(6000, 80000), func(cs *fw.Case) {
+		runBwCase(cs, cs.R, true)
+	})
+	// (4c) mutator histories judged against the model as specified
+	c.Cases("hmm.history", c.N(12000, 150000), func(cs *fw.Case) {
+		runHistoryCase(cs, cs.R)
 	})
 	// (5) constrained / hierarchical transition matrices
 	c.Cases("hmm.variants", c.N(4000, 50000), func(cs *fw.Case) {
